@@ -14,18 +14,21 @@ def discharge(w, ob, timeout_ms=DEFAULT_TIMEOUT_MS, fuel=3):
         ob.backend = "pyvc-frame"
         ob.time = 0.0
         return ob
+    from .specs import inline_nonrec
     s = z3.Solver()
     s.set("timeout", timeout_ms)
     for a in w.axioms:
         s.add(a)
-    for c in ob.pc:
+    pc = [inline_nonrec(w, c) for c in ob.pc]
+    goal = inline_nonrec(w, ob.goal)
+    for c in pc:
         s.add(c)
-    s.add(z3.Not(ob.goal))
-    eqs = unfold(w, [ob.goal], fuel=getattr(ob, "fuel", fuel), facts=list(ob.pc),
+    s.add(z3.Not(goal))
+    eqs = unfold(w, [goal], fuel=getattr(ob, "fuel", fuel), facts=pc,
                  allclass_budget=getattr(ob, "allclass", 8))
     for q in eqs:
         s.add(q)
-    for g in w.ground_len_facts(list(ob.pc) + [ob.goal] + eqs):
+    for g in w.ground_len_facts(pc + [goal] + eqs):
         s.add(g)
     try:
         r = s.check()
